@@ -447,3 +447,120 @@ theorem policyAdd_spec (l : Lfu) (est : Nat → Int) (key : Nat) (cost : Int)
         exact ⟨(hs.admitted ha).1, (hs.admitted ha).2.1, hg⟩
 
 end Stretto
+
+namespace Stretto
+
+/-- guard on the oracle input of the eviction loop: at every iteration the appended sample entries
+are what `fill_sample` may append for the *current* bookkeeping (`Lfu.validRefill`) -/
+def RefillsOk (est : Nat → Int) (incHits : Int) (cost : Int) :
+    Lfu → List (Nat × Int) → List (List (Nat × Int)) → Prop
+  | _, _, [] => True
+  | l, sample, extras :: more =>
+    if l.roomLeft cost ≥ 0 then True
+    else l.validRefill sample.length extras = true ∧
+      (match minEntry est (sample ++ extras) with
+       | none => True
+       | some (i, (vk, _), h) =>
+         if incHits < h then True
+         else RefillsOk est incHits cost (l.remove vk).1 (swapRemove (sample ++ extras) i) more)
+
+theorem mem_of_mem_dropLast' {α : Type} : ∀ (l : List α) (x : α), x ∈ l.dropLast → x ∈ l
+  | [], _, h => by cases h
+  | [_], _, h => by cases h
+  | a :: b :: rest, x, h => by
+    rw [List.dropLast_cons_cons] at h
+    rcases List.mem_cons.mp h with rfl | h1
+    · exact List.mem_cons_self
+    · exact List.mem_cons_of_mem _ (mem_of_mem_dropLast' (b :: rest) x h1)
+
+theorem mem_swapRemove (s : List (Nat × Int)) (i : Nat) (x : Nat × Int) (h : x ∈ swapRemove s i) : x ∈ s := by
+  unfold swapRemove at h
+  cases hl : s.getLast? with
+  | none => simpa [hl] using h
+  | some last =>
+    simp only [hl] at h
+    have h1 := mem_of_mem_dropLast' _ _ h
+    rcases List.mem_or_eq_of_mem_set h1 with h2 | h2
+    · exact h2
+    · rw [h2]; exact List.mem_of_getLast? hl
+
+/-- every victim of the loop is reported with the cost it was charged before the call -/
+theorem evictLoop_victims_charged (est : Nat → Int) (incHits : Int) (key : Nat) (cost : Int) (l0 : Lfu)
+    (refills : List (List (Nat × Int))) :
+    ∀ (l : Lfu) (sample victims : List (Nat × Int)) (evs : List MEv) (log : List IterLog),
+      (∀ j c, l.costs.get j = some c → l0.costs.get j = some c) →
+      (∀ p ∈ sample, l0.costs.get p.1 = some p.2) →
+      (∀ p ∈ victims, l0.costs.get p.1 = some p.2) →
+      RefillsOk est incHits cost l sample refills →
+      ∀ vs, (evictLoop est incHits key cost l sample victims evs log refills).victims = some vs →
+        ∀ p ∈ vs, l0.costs.get p.1 = some p.2 := by
+  induction refills with
+  | nil =>
+    intro l sample victims evs log _ _ hv _ vs hvs p hp
+    simp only [evictLoop] at hvs
+    split at hvs <;> (simp only [Option.some.injEq] at hvs; subst hvs; exact hv p (by simpa using hp))
+  | cons extras more ih =>
+    intro l sample victims evs log hsub hs hv hok vs hvs p hp
+    simp only [evictLoop] at hvs
+    split at hvs
+    · simp only [Option.some.injEq] at hvs; subst hvs; exact hv p (by simpa using hp)
+    · rename_i hroom
+      simp only [RefillsOk, hroom, ↓reduceIte] at hok
+      obtain ⟨hvalid, hrest⟩ := hok
+      -- the refilled sample still carries the original charges
+      have hs' : ∀ q ∈ sample ++ extras, l0.costs.get q.1 = some q.2 := by
+        intro q hq
+        rcases List.mem_append.mp hq with h1 | h1
+        · exact hs q h1
+        · unfold Lfu.validRefill at hvalid
+          split at hvalid
+          · have : extras = [] := by simpa using hvalid
+            rw [this] at h1; cases h1
+          · simp only [Bool.and_eq_true, List.all_eq_true, beq_iff_eq] at hvalid
+            exact hsub _ _ (hvalid.1.2 q h1)
+      cases hmin : minEntry est (sample ++ extras) with
+      | none =>
+        simp only [hmin] at hvs
+        simp only [Option.some.injEq] at hvs; subst hvs; exact hv p (by simpa using hp)
+      | some r =>
+        obtain ⟨i, ⟨vk, vc⟩, hh⟩ := r
+        simp only [hmin] at hvs hrest
+        split at hvs
+        · simp only [Option.some.injEq] at hvs; subst hvs; exact hv p (by simpa using hp)
+        · rename_i hnlt
+          simp only [hnlt, ↓reduceIte] at hrest
+          obtain ⟨hget, _, _⟩ := minEntry_spec est _ i (vk, vc) hh hmin
+          have hmem : (vk, vc) ∈ sample ++ extras := List.mem_of_getElem? hget
+          refine ih (l.remove vk).1 (swapRemove (sample ++ extras) i) ((vk, vc) :: victims) _ _ ?_ ?_ ?_ hrest vs hvs p hp
+          · intro j c hj
+            rw [Lfu.remove_get] at hj
+            split at hj
+            · cases hj
+            · exact hsub j c hj
+          · intro q hq; exact hs' q (mem_swapRemove _ _ _ hq)
+          · intro q hq
+            rcases List.mem_cons.mp hq with rfl | h1
+            · exact hs' _ hmem
+            · exact hv q h1
+
+/-- `policy.add`: every victim is reported with its charge before the call -/
+theorem policyAdd_victims_charged (l : Lfu) (est : Nat → Int) (key : Nat) (cost : Int)
+    (refills : List (List (Nat × Int)))
+    (hok : RefillsOk est (est key) cost l [] refills) :
+    ∀ vs, (policyAdd l est key cost refills).victims = some vs → ∀ p ∈ vs, l.costs.get p.1 = some p.2 := by
+  unfold policyAdd
+  split
+  · intro vs h; cases h
+  · cases hu : l.update key cost with
+    | mk l' r =>
+      obtain ⟨b, evs⟩ := r
+      cases b with
+      | true => intro vs h; cases h
+      | false =>
+        simp only
+        split
+        · intro vs h; cases h
+        · exact evictLoop_victims_charged est (est key) key cost l refills l [] [] [] []
+            (fun _ _ h => h) (fun p hp => by cases hp) (fun p hp => by cases hp) hok
+
+end Stretto
